@@ -64,45 +64,70 @@ func sfObserve(enc *json.Encoder, tags []ot.Tag, content [][]byte, spare []int) 
 		ev.Tables = append(ev.Tables, sfTable{Tag: tagInts(tags[i]), Bytes: bytesToInts(content[i])})
 		ev.Before = append(ev.Before, bytesToInts(buf))
 	}
-	var out []byte
-	func() {
-		defer func() {
-			if r := recover(); r != nil {
-				ev.P = "panic"
+	// Two writes from the SAME []Table value: after the first, every table content is edited in place (same
+	// backing array, same length), so anything WriteTTF remembered about the tables between calls is stale.
+	for round := 0; round < 2; round++ {
+		if round == 1 {
+			changed := false
+			for i := range tables {
+				c := tables[i].Content
+				for a, b := 0, len(c)-1; a < b; a, b = a+1, b-1 { // reverse the bytes: another word sum unless palindromic
+					c[a], c[b] = c[b], c[a]
+				}
+				if len(c) > 0 {
+					c[0] ^= 0x5A
+					changed = true
+				}
 			}
-		}()
-		out = ot.WriteTTF(tables)
-	}()
-	for i := range full {
-		ev.After = append(ev.After, bytesToInts(full[i]))
-	}
-	if ev.P == "ok" {
-		ev.Out = bytesToInts(out)
+			if !changed {
+				break
+			}
+			ev = sfEvent{P: "ok", Tags: [][4]int{}, Rb: []sfRead{}, Spare: spare, Tables: []sfTable{}, Out: []int{}, Before: [][]int{}, After: [][]int{}}
+			for i := range tables {
+				ev.Tables = append(ev.Tables, sfTable{Tag: tagInts(tags[i]), Bytes: bytesToInts(tables[i].Content)})
+				ev.Before = append(ev.Before, bytesToInts(full[i]))
+			}
+		}
+		var out []byte
 		func() {
 			defer func() {
 				if r := recover(); r != nil {
-					ev.Loaderr = "panic: " + fmt.Sprint(r)
+					ev.P = "panic"
 				}
 			}()
-			ld, err := ot.NewLoader(bytes.NewReader(out))
-			if err != nil {
-				ev.Loaderr = err.Error()
-				return
-			}
-			for _, t := range ld.Tables() {
-				ev.Tags = append(ev.Tags, tagInts(t))
-			}
-			for _, t := range tags {
-				b, err := ld.RawTable(t)
-				if err != nil {
-					ev.Rb = append(ev.Rb, sfRead{Err: err.Error(), Bytes: []int{}})
-				} else {
-					ev.Rb = append(ev.Rb, sfRead{Bytes: bytesToInts(b)})
-				}
-			}
+			out = ot.WriteTTF(tables)
 		}()
+		for i := range full {
+			ev.After = append(ev.After, bytesToInts(full[i]))
+		}
+		if ev.P == "ok" {
+			ev.Out = bytesToInts(out)
+			func() {
+				defer func() {
+					if r := recover(); r != nil {
+						ev.Loaderr = "panic: " + fmt.Sprint(r)
+					}
+				}()
+				ld, err := ot.NewLoader(bytes.NewReader(out))
+				if err != nil {
+					ev.Loaderr = err.Error()
+					return
+				}
+				for _, t := range ld.Tables() {
+					ev.Tags = append(ev.Tags, tagInts(t))
+				}
+				for _, t := range tags {
+					b, err := ld.RawTable(t)
+					if err != nil {
+						ev.Rb = append(ev.Rb, sfRead{Err: err.Error(), Bytes: []int{}})
+					} else {
+						ev.Rb = append(ev.Rb, sfRead{Bytes: bytesToInts(b)})
+					}
+				}
+			}()
+		}
+		enc.Encode(ev)
 	}
-	enc.Encode(ev)
 }
 
 var sfTags = []ot.Tag{ot.MustNewTag("OS/2"), ot.MustNewTag("cmap"), ot.MustNewTag("glyf"), ot.MustNewTag("head"), ot.MustNewTag("zzzz"),
